@@ -43,7 +43,8 @@ MANIFEST = dict(
          "list stay, a wrapped value moves below index 0 (C03_frame_new_slot, C03_frame_append, C03_frame_wrap); read-back: "
          "for every creation path of C03_create_partial, getItem through xpath.replace('new()', 'last()') returns v and does "
          "not change the tree (C03_read_back, with str.replace proved equal to a left-to-right scan and the replaced text "
-         "computed: C03_read_back_path; names on the path must not contain '(' since replace would rewrite a name containing "
+         "computed: C03_read_back_path; the same for every first step, also a bare [new()]/[len] below a list: "
+         "C03_read_back_any; names on the path must not contain '(' since replace would rewrite a name containing "
          "'new()'; C03_create_then_read states both halves together; C03_read_back_names / C03_read_back_elem are the earlier "
          "special cases); "
          "(5) histories: one operation type Hist.Op (write to an existing node; creation by a CStep path; delete with or "
